@@ -363,6 +363,8 @@ pub struct Ctx<C: Cv> {
     pub ncb_run: RefCell<usize>,
     pub record: bool,
     pub cap: usize,
+    /// verify-only runs (fixtures): the commitments handed to the verifier, in order, instead of recomputing them
+    pub given_commits: RefCell<VecDeque<C::G>>,
 }
 
 impl<C: Cv> Ctx<C> {
@@ -816,6 +818,7 @@ fn new_ctx<C: Cv>(
         ncb_run: RefCell::new(0),
         record,
         cap: side.cap,
+        given_commits: RefCell::new(VecDeque::new()),
     })
 }
 
@@ -969,7 +972,9 @@ pub fn build_verifier<'a, C: Cv>(
     let cxc0 = cx.clone();
     let commit = move |v: &mut VR<C>, val: Fr<C>, vb: Fr<C>| {
         // the verifier is handed a commitment: the Pedersen commitment to (val, vb) under the prover's bases
-        let pt = cxc0.ppc.commit(val, vb);
+        // (or, for recorded fixtures, the recorded point)
+        let given = cxc0.given_commits.borrow_mut().pop_front();
+        let pt = given.unwrap_or_else(|| cxc0.ppc.commit(val, vb));
         let var = v.commit(pt);
         (pt, var)
     };
@@ -1135,4 +1140,50 @@ pub fn run_program<C: Cv>(prog: &Program, record: bool) -> RunOut<C> {
 
 pub fn field_inv<F: Field>(f: F) -> F {
     f.inverse().unwrap()
+}
+
+
+/// Verify a recorded proof against a recorded statement without running any prover (C18 fixtures).
+pub fn verify_only<C: Cv>(side: &Side, proof_bytes: &[u8], commits: Vec<C::G>, consts: HashMap<usize, Fr<C>>, record: bool) -> (String, VerifierOut) {
+    let pf = match catch_unwind(AssertUnwindSafe(|| R1CSProof::<C::G>::from_bytes(proof_bytes))) {
+        Ok(Ok(p)) => p,
+        Ok(Err(e)) => return (err_name(&e).to_string(), VerifierOut { res: String::new(), next: None, events: vec![] }),
+        Err(p) => return (format!("panic: {}", panic_msg(p)), VerifierOut { res: String::new(), next: None, events: vec![] }),
+    };
+    let pc = make_pc::<C>(&side.pc);
+    let bp = BulletproofGens::<C::G>::new(side.cap, 1);
+    merlin::trace::start();
+    ark_bulletproofs::verif_hooks::start_recording_challenges();
+    let mut t = Transcript::new(static_label(&side.label));
+    for (l, d) in &side.pre {
+        t.append_message(static_label(l), d);
+    }
+    let cx = new_ctx::<C>("V", side, t.verif_tid(), Rc::new(RefCell::new(consts)), Rc::new(RefCell::new(vec![])), None, pc, record);
+    *cx.given_commits.borrow_mut() = commits.into();
+    let result = {
+        let cxr = cx.clone();
+        let tr = &mut t;
+        let (pcr, bpr, pfr) = (&pc, &bp, &pf);
+        catch_unwind(AssertUnwindSafe(move || {
+            let cxe = cxr.clone();
+            let first: Rc<dyn Fn()> = Rc::new(move || {
+                let ops = cxe.tx.borrow_mut().drain();
+                if cxe.record {
+                    cxe.events.borrow_mut().push(json!({"ev":"verify1","role":"V","cap":cxe.cap,"tx":ops}));
+                }
+            });
+            let verifier = build_verifier::<C>(side, tr, &cxr, first);
+            verifier.verify(pfr, pcr, bpr)
+        }))
+    };
+    let ops = cx.tx.borrow_mut().drain();
+    merlin::trace::stop();
+    let res = match result {
+        Ok(Ok(())) => "ok".to_string(),
+        Ok(Err(e)) => err_name(&e).to_string(),
+        Err(p) => format!("panic: {}", panic_msg(p)),
+    };
+    let mut events = std::mem::take(&mut *cx.events.borrow_mut());
+    events.push(json!({"ev":"verify_only","tx":ops,"res":res}));
+    ("ok".to_string(), VerifierOut { res, next: None, events })
 }
